@@ -32,7 +32,13 @@ type c12Case struct {
 	// WS: WebSocket transport; the connection is dropped at TCP level after the complete messages that fit into
 	// the cut offset (a WebSocket message is the unit of transmission, so cuts fall between elements)
 	WS bool `json:"ws,omitempty"`
+	// Prior (TCP): what the same Client went through before the session that is cut: a connection attempt refused at
+	// auth or at bind, a session that was lost, one the server ended with a stream error, or one the application
+	// closed with Disconnect
+	Prior string `json:"prior,omitempty"`
 }
+
+var c12Priors = []string{"auth-failed", "bind-failed", "lost", "stream-error", "disconnected"}
 
 var c12Rich = map[string]string{
 	"m-entities": "<message from='a@localhost/r' id='%s' type='chat'><body>a &amp; b &lt;c&gt; &#x41;&#66; &quot;q&quot;</body></message>",
@@ -152,6 +158,9 @@ func genC12(t *rapid.T) c12Case {
 	}
 	c.Logger = rapid.IntRange(0, 2).Draw(t, "logger") == 0
 	c.Together = rapid.Bool().Draw(t, "together")
+	if !c.WS && rapid.IntRange(0, 3).Draw(t, "hasPrior") == 0 {
+		c.Prior = rapid.SampledFrom(c12Priors).Draw(t, "prior")
+	}
 	data, ends, _ := c.feed()
 	switch rapid.IntRange(0, 3).Draw(t, "cutClass") {
 	case 0: // exactly between two elements
@@ -236,7 +245,36 @@ func runC12(c c12Case) vh.Result {
 	if c.WS {
 		return runC12WS(c, res, baseline)
 	}
+	priorUp := make(chan struct{}, 1)
 	srv, err := peer.Listen(func(pc *peer.Conn) {
+		if c.Prior != "" && pc.Index == 0 {
+			ps := &peer.Script{Mechs: []string{"PLAIN"}, OfferTLS: c.TLS, TLS12: c.TLS12, Cert: "valid"}
+			switch c.Prior {
+			case "auth-failed":
+				ps.Dev = map[string]peer.Dev{"auth": {Kind: "failure"}}
+			case "bind-failed":
+				ps.Dev = map[string]peer.Dev{"bind": {Kind: "failure"}}
+			}
+			out := pc.Negotiate(ps, 10*time.Second)
+			if ps.Dev != nil {
+				pc.Drain(2 * time.Second)
+				return
+			}
+			if !out.Established {
+				failc <- "prior: " + fmt.Sprint(out.Steps)
+				return
+			}
+			priorUp <- struct{}{}
+			switch c.Prior {
+			case "lost":
+				pc.HalfClose()
+			case "stream-error":
+				pc.Send("<stream:error><system-shutdown xmlns='urn:ietf:params:xml:ns:xmpp-streams'/></stream:error></stream:stream>")
+				pc.HalfClose()
+			}
+			pc.Drain(5 * time.Second)
+			return
+		}
 		pconn = pc
 		out := pc.Negotiate(script, 10*time.Second)
 		if !out.Established {
@@ -269,8 +307,57 @@ func runC12(c c12Case) vh.Result {
 			xmpp.VerifGetTransport(cl).LogTraffic(f)
 		}
 	}
+	disc0, errs0 := 0, 0
+	if c.Prior != "" {
+		res.Label("prior-" + c.Prior)
+		res.Label("prior-history")
+		err := cl.Connect()
+		switch c.Prior {
+		case "auth-failed", "bind-failed":
+			if err == nil {
+				res.Fail("harness-prior", "prior attempt (%s) did not fail", c.Prior)
+				return res
+			}
+		default:
+			if err != nil {
+				res.Fail("harness-prior", "prior connection (%s): %v", c.Prior, err)
+				return res
+			}
+			select {
+			case <-priorUp:
+			case s := <-failc:
+				res.Fail("harness-not-established", "%s", s)
+				return res
+			case <-time.After(15 * time.Second):
+				res.Fail("harness", "prior connection not established")
+				return res
+			}
+			if c.Prior == "disconnected" {
+				_ = cl.Disconnect()
+			}
+			// the end of the prior session has been reported by the event that closes its teardown (the error callback
+			// comes earlier, while the old receive loop is still closing the transport) and things are quiet
+			endState := xmpp.StateDisconnected
+			if c.Prior == "stream-error" {
+				endState = xmpp.StateStreamError
+			}
+			if !waitFor(vh.Margin(5*time.Second), func() bool { _, errs, _ := rec.snapshot(); return len(errs) >= 1 && rec.count(endState) >= 1 }) {
+				res.Fail("harness-prior", "end of the prior session (%s) was not reported", c.Prior)
+				return res
+			}
+		}
+		stable := func() (int, int) { _, errs, _ := rec.snapshot(); return rec.count(xmpp.StateDisconnected), len(errs) }
+		for i := 0; i < 40; i++ {
+			d, e := stable()
+			time.Sleep(vh.Margin(40 * time.Millisecond))
+			if d2, e2 := stable(); d2 == d && e2 == e {
+				break
+			}
+		}
+		disc0, errs0 = stable()
+	}
 	if err := cl.Connect(); err != nil {
-		res.Fail("harness-connect", "Connect: %v", err)
+		res.Fail("harness-connect", "Connect (prior=%q tls=%v tls12=%v sm=%v): %v", c.Prior, c.TLS, c.TLS12, c.SM, err)
 		return res
 	}
 	select {
@@ -283,14 +370,17 @@ func runC12(c c12Case) vh.Result {
 		return res
 	}
 	desc := fmt.Sprintf("cut at %d/%d (%s) sm=%v", cut, len(data), cls, c.SM)
+	if c.Prior != "" {
+		desc += " prior=" + c.Prior
+	}
 	// the loss must be reported
 	reported := waitFor(vh.Margin(5*time.Second), func() bool {
 		_, errs, _ := rec.snapshot()
-		return rec.count(xmpp.StateDisconnected) >= 1 && len(errs) >= 1
+		return rec.count(xmpp.StateDisconnected) >= disc0+1 && len(errs) >= errs0+1
 	})
 	if !reported {
 		_, errs, _ := rec.snapshot()
-		res.Fail("t/loss-not-reported", "%s: %d Disconnected events and %d error callbacks within the margin", desc, rec.count(xmpp.StateDisconnected), len(errs))
+		res.Fail("t/loss-not-reported", "%s: %d Disconnected events and %d error callbacks within the margin", desc, rec.count(xmpp.StateDisconnected)-disc0, len(errs)-errs0)
 	}
 	// everything completely received must be routed
 	routedIDs := func() []string {
@@ -330,12 +420,13 @@ func runC12(c c12Case) vh.Result {
 	time.Sleep(vh.Margin(6 * interval))
 	ws2 := countWS()
 	states, errs, _ := rec.snapshot()
-	nDisc := 0
+	nDisc := -disc0
 	for _, s := range states {
 		if s == xmpp.StateDisconnected {
 			nDisc++
 		}
 	}
+	errs = errs[errs0:]
 	if nDisc > 1 {
 		res.Fail("disconnected-twice", "%s: %d Disconnected events (states %v)", desc, nDisc, states)
 	}
@@ -344,7 +435,14 @@ func runC12(c c12Case) vh.Result {
 	}
 	if c.SM && nDisc >= 1 {
 		rec.mu.Lock()
+		seen := 0
 		for _, e := range rec.events {
+			if xmpp.VerifEventState(e) == xmpp.StateDisconnected {
+				seen++
+			}
+			if seen <= disc0 {
+				continue // events of the prior history
+			}
 			if xmpp.VerifEventState(e) == xmpp.StateDisconnected && e.SMState.Id != "sm-c12" {
 				res.Fail("disconnected-without-sm-state", "%s: Disconnected event carries SM id %q, expected sm-c12", desc, e.SMState.Id)
 			}
@@ -386,7 +484,7 @@ func runC12(c c12Case) vh.Result {
 
 var c12 = vh.Define(&vh.Def[c12Case]{
 	Property: "C12", Name: "cut",
-	Rule: "an inbound stream of 1-10 elements (plain and rich stanzas: entities, character references, CDATA incl. ]]> splitting, attributes containing > and quotes, comments, nested same-name descendants; <r/>, <a/>, features) is cut at a generated byte offset (one quarter exactly between elements, the rest uniformly), with and without stream management, over plain TCP, STARTTLS (TLS 1.3 or capped at 1.2) or WebSocket (connection dropped between messages), with and without the traffic logger, the prefix and the end of the stream leaving the server in separate segments or in one; the peer sends the prefix, half-closes and keeps draining; keepalive interval 15 ms; oracle: at most one error callback and one Disconnected event and at least one of each within the margin, the event carries the SM id when SM is on, every stanza that ended before the cut is routed once and no other, no goroutine with a library frame that did not exist before the case survives (runtime.Stack poll), no keepalive write reaches the peer afterwards; non-trivial = the cut falls strictly inside an element",
+	Rule: "an inbound stream of 1-10 elements (plain and rich stanzas: entities, character references, CDATA incl. ]]> splitting, attributes containing > and quotes, comments, nested same-name descendants; <r/>, <a/>, features) is cut at a generated byte offset (one quarter exactly between elements, the rest uniformly), with and without stream management, over plain TCP, STARTTLS (TLS 1.3 or capped at 1.2) or WebSocket (connection dropped between messages), with and without the traffic logger, in a quarter of the TCP cases after the same Client went through an attempt refused at auth or bind, a lost session, a session ended by a stream error or its own Disconnect (events are counted from there), the prefix and the end of the stream leaving the server in separate segments or in one; the peer sends the prefix, half-closes and keeps draining; keepalive interval 15 ms; oracle: at most one error callback and one Disconnected event and at least one of each within the margin, the event carries the SM id when SM is on, every stanza that ended before the cut is routed once and no other, no goroutine with a library frame that did not exist before the case survives (runtime.Stack poll), no keepalive write reaches the peer afterwards; non-trivial = the cut falls strictly inside an element",
 	Quick: 300, Thorough: 6000, Journal: true,
 	Gen: genC12, Run: runC12,
 })
@@ -421,6 +519,7 @@ func TestC12_Regress(t *testing.T) { vh.Regress(t, "C12") }
 // the WebSocket is ended (FIN).
 func runC12WS(c c12Case, res vh.Result, baseline map[string]string) vh.Result {
 	res.Label("websocket")
+	disc0, errs0 := 0, 0 // no prior history over WebSocket
 	_, ends, ids := c.feed()
 	var want []string
 	var msgs []string
@@ -485,11 +584,11 @@ func runC12WS(c c12Case, res vh.Result, baseline map[string]string) vh.Result {
 	desc := fmt.Sprintf("websocket, dropped after %d of %d messages, sm=%v", nItems, len(c.Items), c.SM)
 	reported := waitFor(vh.Margin(5*time.Second), func() bool {
 		_, errs, _ := rec.snapshot()
-		return rec.count(xmpp.StateDisconnected) >= 1 && len(errs) >= 1
+		return rec.count(xmpp.StateDisconnected) >= disc0+1 && len(errs) >= errs0+1
 	})
 	if !reported {
 		_, errs, _ := rec.snapshot()
-		res.Fail("t/loss-not-reported", "%s: %d Disconnected events and %d error callbacks within the margin", desc, rec.count(xmpp.StateDisconnected), len(errs))
+		res.Fail("t/loss-not-reported", "%s: %d Disconnected events and %d error callbacks within the margin", desc, rec.count(xmpp.StateDisconnected)-disc0, len(errs)-errs0)
 	}
 	routedIDs := func() []string {
 		_, _, routed := rec.snapshot()
@@ -513,12 +612,13 @@ func runC12WS(c c12Case, res vh.Result, baseline map[string]string) vh.Result {
 	}
 	gone := waitFor(vh.Margin(3*time.Second), func() bool { return len(leaked()) == 0 })
 	states, errs, _ := rec.snapshot()
-	nDisc := 0
+	nDisc := -disc0
 	for _, s := range states {
 		if s == xmpp.StateDisconnected {
 			nDisc++
 		}
 	}
+	errs = errs[errs0:]
 	if nDisc > 1 {
 		res.Fail("disconnected-twice", "%s: %d Disconnected events", desc, nDisc)
 	}
